@@ -1,4 +1,210 @@
-import WireV.NameEmit
-/-! # C14 — placeholder until the name proofs (Task D) are merged -/
+import WireP.Lemmas.NameProofsDisamb
+import WireP.Lemmas.NameProofsSharp
+import WireP.Lemmas.NameProofsSteps
+import WireP.Lemmas.NameProofsEnv
+import WireP.Lemmas.NameProofsCase
+/-! # C14 — generated identifiers are fresh, distinct and never keywords
+
+Model: `WireV.disambiguate` (the unbounded `for n := 2; ; n++` loop of wire.go with explicit fuel),
+`WireV.typeVariableName`, `WireV.nameInjector` (the binders of one injector in the order
+`injectPass` invents them), `WireV.qualifyImport`, `WireV.valueVarName`, `WireV.exportName`,
+`WireV.unexportName`.  `collides` is any predicate that is true on a finite list `taken` only;
+it is instantiated with `NameEnv.inFileScope` and `InjNames.inInjector` in the injector theorems.
+Definitions used by the statements (`ImportsOK`, `bad`, `baseOf`) live in `WireP.Lemmas.NameProofs*`. -/
 namespace WireP.C14
+open WireV WireP.NameProofs
+
+/-! ## 1–2 `disambiguate` -/
+
+/-- **The unbounded loop of `disambiguate` terminates and returns a fresh non-keyword**: with
+    more fuel than there are names to avoid, the result exists, does not collide, is not a keyword,
+    and is `name` itself or `name[_]N` with `N ≥ 2`. -/
+theorem disambiguate_fresh (fuel : Nat) (name : String) (collides : String → Bool)
+    (taken : List String) (ht : ∀ n, collides n = true → n ∈ taken)
+    (hf : taken.length + goKeywords.length + 1 ≤ fuel) :
+    ∃ r, disambiguate fuel name collides = some r ∧ collides r = false ∧ isKeyword r = false ∧
+      (r = name ∨ ∃ n, 2 ≤ n ∧
+        r = (if endsInDigit name then name ++ "_" else name) ++ toString n) :=
+  NameProofs.disambiguate_fresh fuel name collides taken ht hf
+
+/-- the same with the sharp constant: the numbered candidates end in a digit, hence are never
+    keywords, so only the colliding names count (`|taken| + 1` is tight: see the examples) -/
+theorem disambiguate_fresh_sharp (fuel : Nat) (name : String) (collides : String → Bool)
+    (taken : List String) (ht : ∀ n, collides n = true → n ∈ taken)
+    (hf : taken.length + 1 ≤ fuel) :
+    ∃ r, disambiguate fuel name collides = some r ∧ collides r = false ∧ isKeyword r = false ∧
+      (r = name ∨ ∃ n, 2 ≤ n ∧
+        r = (if endsInDigit name then name ++ "_" else name) ++ toString n) :=
+  NameProofs.disambiguate_fresh_sharp fuel name collides taken ht hf
+
+/-- whatever the fuel: a returned name is fresh and not a keyword -/
+theorem disambiguate_some_spec (fuel : Nat) (name : String) (collides : String → Bool) (r : String)
+    (h : disambiguate fuel name collides = some r) : collides r = false ∧ isKeyword r = false :=
+  ⟨(disambiguate_some h).1, (disambiguate_some h).2.1⟩
+
+/-- a usable name is returned unchanged -/
+theorem disambiguate_keep (fuel : Nat) (name : String) (collides : String → Bool)
+    (hk : isKeyword name = false) (hc : collides name = false) :
+    disambiguate fuel name collides = some name :=
+  NameProofs.disambiguate_keep hk hc
+
+/-- otherwise the number appended is the least `N ≥ 2` whose candidate is usable (the Go loop
+    is deterministic) -/
+theorem disambiguate_least (fuel : Nat) (name : String) (collides : String → Bool) (r : String)
+    (hb : (isKeyword name || collides name) = true) (h : disambiguate fuel name collides = some r) :
+    ∃ n, 2 ≤ n ∧ r = (if endsInDigit name then name ++ "_" else name) ++ toString n ∧
+      ∀ k, 2 ≤ k → k < n →
+        (isKeyword ((if endsInDigit name then name ++ "_" else name) ++ toString k) ||
+          collides ((if endsInDigit name then name ++ "_" else name) ++ toString k)) = true :=
+  NameProofs.disambiguate_least hb h
+
+/-- the candidates are pairwise distinct (what makes the pigeonhole argument work) -/
+theorem candidates_injective (base : String) (m n : Nat)
+    (h : base ++ toString m = base ++ toString n) : m = n :=
+  cand_inj base h
+
+/-! ## 3 `typeVariableName` -/
+
+/-- for **any** `transform`, a returned name is fresh and not a keyword -/
+theorem typeVariableName_fresh (fuel : Nat) (shape : TyShape) (defaultName : String)
+    (transform : String → String) (collides : String → Bool) (r : String)
+    (h : typeVariableName fuel shape defaultName transform collides = some r) :
+    collides r = false ∧ isKeyword r = false :=
+  typeVariableName_some h
+
+/-- and a name is returned under the fuel bound of `disambiguate_fresh` -/
+theorem typeVariableName_total (fuel : Nat) (shape : TyShape) (defaultName : String)
+    (transform : String → String) (collides : String → Bool)
+    (taken : List String) (ht : ∀ n, collides n = true → n ∈ taken)
+    (hf : taken.length + goKeywords.length + 1 ≤ fuel) :
+    ∃ r, typeVariableName fuel shape defaultName transform collides = some r :=
+  typeVariableName_isSome shape defaultName transform ht hf
+
+/-! ## 4–5 `nameInjector` -/
+
+/-- **All binders of a generated injector are pairwise distinct, shadow nothing in file scope
+    (imports, value variables, package scope, universe) and are not keywords**; one name per
+    parameter, per planned call and per cleanup. -/
+theorem nameInjector_distinct (fuel : Nat) (e : NameEnv) (ps : List ParamInfo) (ss : List StepInfo)
+    (ig : InjNames) (h : nameInjector fuel e ps ss = some ig) :
+    (ig.all.Nodup ∧ ∀ n ∈ ig.all, e.inFileScope n = false ∧ isKeyword n = false) ∧
+    (ig.params.length = ps.length ∧ ig.locals.length = ss.length ∧
+      ig.cleanups.length = (ss.filter (fun s => s.isFunc && s.hasCleanup)).length) :=
+  ⟨(nameInjector_spec h).1, (nameInjector_spec h).2⟩
+
+/-- the error variable is the one `disambiguate("err", …)` picks against the file scope alone -/
+theorem nameInjector_errVar (fuel : Nat) (e : NameEnv) (ps : List ParamInfo) (ss : List StepInfo)
+    (ig : InjNames) (h : nameInjector fuel e ps ss = some ig) :
+    disambiguate fuel "err" e.inFileScope = some ig.errVar :=
+  NameProofs.nameInjector_errVar h
+
+theorem nameInjector_total (fuel : Nat) (e : NameEnv) (ps : List ParamInfo) (ss : List StepInfo)
+    (hf : e.fileScope.length + e.imports.length + e.values.length + ps.length + 2 * ss.length
+      + goKeywords.length + 3 ≤ fuel) :
+    ∃ ig, nameInjector fuel e ps ss = some ig :=
+  nameInjector_isSome ps ss hf
+
+/-! ## 6 `qualifyImport` -/
+
+/-- a new import gets a fresh identifier that is not `err`, not in file scope and not a keyword -/
+theorem qualifyImport_fresh (fuel : Nat) (e e' : NameEnv) (pkgName path nm : String)
+    (h : qualifyImport fuel e pkgName path = some (nm, e')) (hp : path ∉ e.imports.map (·.1)) :
+    nm ≠ "err" ∧ e.inFileScope nm = false ∧ isKeyword nm = false ∧
+      e'.imports = e.imports ++ [(path, nm)] ∧ e'.values = e.values ∧ e'.fileScope = e.fileScope :=
+  NameProofs.qualifyImport_fresh h hp
+
+/-- an already imported path gets the same identifier again and the environment is unchanged -/
+theorem qualifyImport_again (fuel : Nat) (e : NameEnv) (pkgName path nm : String)
+    (hnd : (e.imports.map (·.1)).Nodup) (hm : (path, nm) ∈ e.imports) :
+    qualifyImport fuel e pkgName path = some (nm, e) :=
+  qualifyImport_old_eq hnd hm
+
+/-- `ImportsOK`: import identifiers pairwise distinct, paths pairwise distinct, no identifier is a
+    value variable or a package-scope name — preserved by `qualifyImport` … -/
+theorem qualifyImport_preserves (fuel : Nat) (e e' : NameEnv) (pkgName path nm : String)
+    (h : qualifyImport fuel e pkgName path = some (nm, e')) (hi : ImportsOK e) : ImportsOK e' :=
+  NameProofs.qualifyImport_preserves h hi
+
+/-- … and by `valueVarName` -/
+theorem valueVarName_preserves (fuel : Nat) (e e' : NameEnv) (shape : TyShape) (nm : String)
+    (h : valueVarName fuel e shape = some (nm, e')) (hi : ImportsOK e) : ImportsOK e' :=
+  NameProofs.valueVarName_preserves h hi
+
+theorem qualifyImport_total (fuel : Nat) (e : NameEnv) (pkgName path : String)
+    (hf : e.fileScope.length + e.imports.length + e.values.length + goKeywords.length + 2 ≤ fuel) :
+    ∃ r, qualifyImport fuel e pkgName path = some r :=
+  qualifyImport_isSome e pkgName path hf
+
+/-! ## 7 `valueVarName` -/
+
+/-- the new value variable is not in file scope (imports, earlier value variables, package scope,
+    universe), not a keyword, and the value variables stay pairwise distinct -/
+theorem valueVarName_fresh (fuel : Nat) (e e' : NameEnv) (shape : TyShape) (nm : String)
+    (h : valueVarName fuel e shape = some (nm, e')) :
+    e.inFileScope nm = false ∧ isKeyword nm = false ∧
+      e' = { e with values := e.values ++ [nm] } ∧ (e.values.Nodup → e'.values.Nodup) :=
+  NameProofs.valueVarName_fresh h
+
+theorem valueVarName_total (fuel : Nat) (e : NameEnv) (shape : TyShape)
+    (hf : e.fileScope.length + e.imports.length + e.values.length + goKeywords.length + 1 ≤ fuel) :
+    ∃ r, valueVarName fuel e shape = some r :=
+  valueVarName_isSome e shape hf
+
+/-! ## 8 `export` / `unexport` -/
+
+theorem exportName_idem (s : String) : exportName (exportName s) = exportName s :=
+  NameProofs.exportName_idem s
+
+theorem unexportName_of_not_upper (s : String)
+    (h : ∀ c rest, s.toList = c :: rest → c.isUpper = false) : unexportName s = s :=
+  NameProofs.unexportName_of_not_upper s h
+
+/-! ## Non-vacuity: adversarial pools -/
+
+example : disambiguate 40 "err" (fun n => ["err", "err2"].contains n) = some "err3" := by decide
+example : disambiguate 40 "foo1" (fun n => ["foo1"].contains n) = some "foo1_2" := by decide
+example : disambiguate 40 "select" (fun _ => false) = some "select2" := by decide
+example : disambiguate 40 "x" (fun n => ["y"].contains n) = some "x" := by decide
+/-- the fuel bound of `disambiguate_fresh` is satisfiable; too little fuel really fails -/
+example : ["err", "err2"].length + goKeywords.length + 1 ≤ 40 := by decide
+example : disambiguate 1 "err" (fun n => ["err", "err2"].contains n) = none := by decide
+/-- `|taken| + 1` is tight: a keyword name and `|taken|` blocked candidates -/
+example : disambiguate 2 "go" (fun n => ["go2", "go3"].contains n) = none := by decide
+example : disambiguate 3 "go" (fun n => ["go2", "go3"].contains n) = some "go4" := by decide
+
+/-- file scope holding `err`, the builtin `int`, an import `http` and a value variable -/
+def exEnv : NameEnv :=
+  { fileScope := ["err", "int", "Foo", "NewFoo"], imports := [("net/http", "http")],
+    values := ["_wireIntValue"] }
+/-- parameters named `err`, `cleanup`, `_` -/
+def exParams : List ParamInfo :=
+  [⟨"err", .basic "int"⟩, ⟨"cleanup", .basic "string"⟩, ⟨"_", .named "Select" none⟩]
+/-- results named like a keyword after unexporting (`Select`), like an import (`Http`), like a
+    universe name (`int`), and an unnamed type -/
+def exSteps : List StepInfo :=
+  [⟨.named "Select" none, true, true⟩, ⟨.named "Http" none, true, true⟩,
+   ⟨.basic "int", false, false⟩, ⟨.other, true, false⟩]
+
+example : (nameInjector 60 exEnv exParams exSteps).map
+      (fun ig => (ig.errVar, ig.params, ig.locals, ig.cleanups)) =
+    some ("err2", ["err3", "cleanup", "select2"], ["select3", "http2", "int2", "v"],
+      ["cleanup2", "cleanup3"]) := by decide
+example : exEnv.fileScope.length + exEnv.imports.length + exEnv.values.length + exParams.length
+    + 2 * exSteps.length + goKeywords.length + 3 ≤ 60 := by decide
+
+example : ImportsOK exEnv := by
+  refine ⟨by decide, by decide, ?_⟩
+  intro n hn
+  have : n = "http" := by simpa [exEnv] using hn
+  subst this; exact ⟨by decide, by decide⟩
+example : (qualifyImport 40 exEnv "http" "example.com/http").map (·.1) = some "http2" := by decide
+example : (qualifyImport 40 exEnv "err" "example.com/err").map (·.1) = some "err2" := by decide
+example : (qualifyImport 40 exEnv "other" "net/http").map (·.1) = some "http" := by decide
+example : "example.com/http" ∉ exEnv.imports.map (·.1) := by decide
+example : (valueVarName 40 exEnv (.basic "int")).map (·.1) = some "_wireIntValue2" := by decide
+example : (valueVarName 40 exEnv (.named "Foo" (some "bar"))).map (·.1) = some "_wireFooValue" := by
+  decide
+example : exportName "foo" = "Foo" ∧ exportName "Foo" = "Foo" ∧ unexportName "HTTPServer" = "httpServer"
+    ∧ unexportName "foo" = "foo" := by decide
+
 end WireP.C14
